@@ -1500,7 +1500,8 @@ class t2data(object):
                              con.distance[0], con.distance[1],
                              con.direction, con.area, con.dircos, con.sigma)
                             for con in self.grid.connectionlist], dtype = con_dt)
-        condata[:]['sigma'] = np.nan_to_num(condata[:]['sigma'])
+        for var in ['dircos', 'sigma']:
+            condata[:][var] = np.nan_to_num(condata[:][var])
         # write MESHA file:
         for var in ['volume', 'ahtx', 'pmx', 'cx', 'cy', 'cz']:
             fa.writerec('%dd' % nel, blkdata[:][var])
